@@ -542,12 +542,16 @@ def tie_misc(ctx):
         mean, var = np.array(res[3], dtype=np.float64), np.array(res[4], dtype=np.float64)
         chans = [xbn[:, c].astype(np.float64) for c in range(Cb)]
         t = " && ".join("qpair_eqb (bn_stats true None %s) (%s, %s)" % (qlist(chans[c]), qlit(mean[c]), qlit(var[c])) for c in range(Cb))
-        tout = torch.nn.functional.batch_norm(torch.tensor(xbn), None, None, None, None, True, 0.25, 1e-5).numpy()
+        # reference: the two-pass normalisation of the same float32 numbers carried out in float64 (exact mean and variance here).
+        # torch's own float32 result is NOT used: on a constant channel its rounded mean, divided by sqrt(eps), is off by 1e-2
+        # while the library returns the exact 0 (a false alarm of this oracle in the thorough tier, corrected)
+        x64 = xbn.astype(np.float64)
+        tout = (x64 - x64.mean(axis=0)) / np.sqrt(x64.var(axis=0) + 1e-5)
         out = np.array(res[0], dtype=np.float64)
         terms.append(t); payloads.append({"op": "batch_norm", "dtype": "float32", "training": True, "x": xbn.tolist()})
-        if not cc.close(out, tout.astype(np.float64), 1e-3):
+        if not cc.close(out, tout, 1e-3):
             verdicts.append((len(payloads) - 1, {"expected": cc.tolist(tout), "observed": cc.tolist(out),
-                                                  "note": "float32 batch statistics on data with |mean| >> spread differ from torch (tolerance 1e-3)"}))
+                                                  "note": "float32 batch statistics on data with |mean| >> spread differ from the float64 two-pass normalisation of the same numbers (tolerance 1e-3)"}))
     # BatchNorm layers over a history that interleaves training and eval forwards (validation passes between training steps):
     # num_batches_tracked and the running statistics after every forward, for a float momentum and momentum=None (cumulative average);
     # exact (Coq) for the counter and for the running mean while the factor is dyadic, torch.nn for outputs and all statistics
